@@ -745,9 +745,10 @@ func runC05(r *harness.Run) {
 	// boundaries inside coroutines, and Go functions as coroutine bodies (incl. error itself)
 	pr := c03Runner(r)
 	pr.prop = "C05"
-	pr.runGens(map[string]Gen{"F-errval": genErrVal(th), "F-cooverflow": genCoOverflow(), "F-yieldacross": genYieldAcross(), "F-hostbody": genHostBody()}, []string{"F-errval", "F-cooverflow", "F-yieldacross", "F-hostbody"})
+	pr.runGens(map[string]Gen{"F-errval": genErrVal(th), "F-cooverflow": genCoOverflow(), "F-yieldacross": genYieldAcross(), "F-hostbody": genHostBody(), "F-closure": genClosure(false)}, []string{"F-errval", "F-cooverflow", "F-yieldacross", "F-hostbody", "F-closure"})
 	c05GoResume(r)
 	runPinned(r, "C05")
+	overflowHistory(r)
 }
 
 // c05GoResume — the Go-side Resume as a protected entry point: a coroutine that fails (error value
